@@ -50,6 +50,14 @@ CHECKS.update({
          "Fault enumeration: every program carries one or more injected failures; loom::model must unwind with a reachable failure (never return normally, never kill the process), return normally when none is reachable, and leave the process clean for the next model.",
          "trusted: sync.rs reference machine, panic classifier; when several failure kinds are reachable any is accepted", "§5-C06"),
 })
+CHECKS.update({
+ "C10": ("runtime monitoring with leak injection: loom::model's leak verdict (panic classifier) vs. the live set of a reference-count / allocation / message-queue machine at the end of every interleaving",
+         "Exploration: Arc handles, Track values, raw allocations and channel messages created, moved, dropped, forgotten or leaked schedule-dependently in 2-3 threads; loom must report a leak of a reachable kind iff some schedule ends with a live object.",
+         "trusted: arcs.rs / sync.rs reference machines, panic classifier", "§5-C10"),
+ "C11": ("runtime monitoring: every returned count / Option / Result replayed on a reference-count machine in log order, drop-exactly-once counter on the payload, result sets vs. reference, loom's race detector on a payload cell as witness of the drop ordering",
+         "Exploration: exhaustive 2-thread core over clone/drop/strong_count/get_mut + try_unwrap, raw round trips, increment/decrement_strong_count + random programs (<= 8 handle operations).",
+         "trusted: arcs.rs reference-count machine, replay, interpreter (handles created before the first spawn)", "§5-C11"),
+})
 NOT_YET = {}
 def main():
     props = [json.loads(l) for l in open(os.path.join(ROOT, "properties.jsonl"))]
